@@ -33,7 +33,7 @@ def generate(r):
     ident = {m: m.replace(".", "_") for m in mods}
     local = {m: m.split(".")[-1] for m in mods}
     deps = {m: [d for d in mods[:i] if r.random() < 0.4 and not m.startswith(d + ".")] for i, m in enumerate(mods)}
-    fibers_in_modules = r.random() < 0.3
+    fibers_in_modules = r.random() < 0.45
     files = {}
     bindings = {}
     for i, m in enumerate(mods):
@@ -54,8 +54,9 @@ def generate(r):
         lines.append("export let val_%s = %d;" % (ident[m], i + 10))
         lines.append("export class K_%s { init() { self.tag = ['%s']; } id() { %d } }" % (ident[m], m, i + 20))
         if fibers_in_modules and r.random() < 0.5:
-            lines.append("let mc_%s = chan(1); fn mw_%s(c) { c <- %d; } launch mw_%s(mc_%s); print('%s fiber', <- mc_%s);" % (
-                ident[m], ident[m], i + 70, ident[m], ident[m], m, ident[m]))
+            # (a synchronous channel parks the module's fiber in the blocked state, a buffered one puts it to sleep)
+            lines.append("let mc_%s = chan(%s); fn mw_%s(c) { c <- %d; } launch mw_%s(mc_%s); print('%s fiber', <- mc_%s);" % (
+                ident[m], r.choice(["", "1"]), ident[m], i + 70, ident[m], ident[m], m, ident[m]))
         for d in deps[m]:
             call = ("b_%s()" % ident[d]) if sym[d] else ("I_%s.bump_%s()" % (ident[d], ident[d]))
             lines.append("print('%s sees', %s);" % (m, call))
